@@ -231,10 +231,21 @@ class FileStream(Stream):
     scanned text when there is none) never contributes": the scanned text is the first 4096 bytes, or the whole file when it
     contains an SPDX snippet marker."""
     name = "file"
-    rule = ("files of 1-20 KiB made of token runs (markers, the three tag kinds, text) separated by filler blocks of 0.5-5 KiB, with "
+    rule = ("(a) files of 1-20 KiB made of token runs (markers, the three tag kinds, text) separated by filler blocks of 0.5-5 KiB, with "
             "and without an SPDX-SnippetBegin line (placed before, inside or after the blocks), so that ignore blocks straddle the "
-            "4096-byte window and every later 4 KiB boundary: reuse_info_of_file vs the scanner applied to the scanned text; "
+            "4096-byte window and every later 4 KiB boundary; the snippet marker itself lying across a multiple of 4096 or across a "
+            "buffer-size-like offset from 8 KiB to 1 MiB (powers of two, 10000, 24576, 100000, 196608; files above 140 KiB are judged by "
+            "the oracle only); (b) line-oriented files as people write them: 2-6 ignore blocks whose marker lines are IDENTICAL (same "
+            "comment prefix, indentation and trailing words every time), tag lines drawn from a pool of three values per kind so that the "
+            "same tag line occurs inside a block and again after it / in two blocks / twice outside, identical filler and blank lines, "
+            "runs of 40-120 identical lines pushing later blocks behind the 4096-byte window, stray end markers, a last block left open; "
+            "with and without an SPDX-SnippetBegin line at any position: reuse_info_of_file vs the scanner applied to the scanned text; "
             "non-trivial = a tag hidden by a block or cut off by the window")
+
+    BOUNDS = [8192, 10000, 16384, 24576, 32768, 65536, 100000, 131072, 196608, 262144, 524288, 1048576]
+    MODEL_MAX = 140 * 1024
+    PRES = ["# ", "// ", "", "  # ", "-- ", "\t* "]
+    MARK_TAILS = ["", "", " (generated)", " */", " -->"]
 
     def cases(self, tier, rng):
         for _ in range(3000 if tier == "thorough" else 250):
@@ -246,11 +257,109 @@ class FileStream(Stream):
             if case["snip"] is not None and rng.random() < 0.5:
                 # the snippet marker itself straddles a multiple of 4096 bytes (it starts j bytes before it)
                 case["straddle"] = [rng.randint(1, 4), rng.randint(1, 16)]
+                if rng.random() < 0.25:
+                    # ... or a multiple of a larger buffer-size-like offset
+                    case["straddle"].append(rng.choice(self.BOUNDS))
+                    case["straddle"][0] = rng.randint(1, 3) if case["straddle"][2] <= 65536 else 1
             yield case
+        for B in self.BOUNDS:
+            for _ in range(4 if tier == "thorough" else 1):
+                segs = []
+                for _ in range(rng.randint(2, 4)):
+                    segs.append([rng.choice([0, 0, 1, 2, 2, 3, 4, 5, 6]) for _ in range(rng.randint(1, 5))])
+                    segs.append(rng.choice([0, 300, 2500, 4096]) + rng.randint(0, 200))
+                yield {"segs": segs, "snip": rng.randint(0, 3), "c": rng.randint(0, 1), "straddle": [1, rng.randint(1, 16), B]}
+        for _ in range(3000 if tier == "thorough" else 250):
+            yield self.repeat_case(rng)
+
+    def repeat_case(self, rng):
+        """(b): what the file is made of, line by line"""
+        items = []
+
+        def tags(lo, hi):
+            for _ in range(rng.randint(lo, hi)):
+                r = rng.random()
+                if r < 0.55:
+                    items.append([rng.choice("LLCCN"), rng.randint(0, 2)])
+                elif r < 0.85:
+                    items.append(["F", rng.randint(0, 2)])
+                else:
+                    items.append(["B"])
+        nb = rng.randint(2, 6)
+        tags(0, 3)
+        for i in range(nb):
+            if rng.random() < 0.12:
+                items.append(["P", rng.randint(40, 120), rng.randint(0, 2)])
+            if rng.random() < 0.07:
+                items.append(["E"])          # a stray end marker
+            items.append(["S"])
+            if rng.random() < 0.05:
+                items.append(["S"])
+            tags(0, 3)
+            if not (i == nb - 1 and rng.random() < 0.1):
+                items.append(["E"])          # (else: the last block is left open)
+            tags(0, 3)
+        snip = rng.choice([None, None, "first", "last", "rand", "rand", "rand"])
+        if snip == "rand":
+            snip = rng.randint(0, len(items))
+        return {"plan": "repeat", "items": items, "pre": rng.randrange(len(self.PRES)), "mtail": rng.randrange(len(self.MARK_TAILS)),
+                "snip": snip, "snipend": rng.random() < 0.5, "cprefix": rng.choice(["SPDX-FileCopyrightText:", "SPDX-SnippetCopyrightText:", "Copyright"])}
+
+    def build_repeat(self, case):
+        st, en = _markers()
+        pre = self.PRES[case["pre"]]
+        mtail = self.MARK_TAILS[case["mtail"]]
+        parts, planted, pos = [], [], 0
+
+        def put(x):
+            nonlocal pos
+            parts.append(x)
+            pos += len(x)
+        items = list(case["items"])
+        snip = case["snip"]
+        if snip == "first":
+            snip = 0
+        elif snip == "last":
+            snip = len(items)
+        for idx, it in enumerate(items + [["END"]]):
+            if snip == idx:
+                put(pre + "SPDX-SnippetBegin\n")
+            t = it[0]
+            if t == "S":
+                put(pre + st + mtail + "\n")
+            elif t == "E":
+                put(pre + en + mtail + "\n")
+            elif t == "L":
+                v = LICS[it[1]]
+                line = pre + "SPDX-License-Identifier: " + v + "\n"
+                planted.append(("lic", v, pos, pos + len(line)))
+                put(line)
+            elif t == "C":
+                v = "%s 20%02d Holder %s" % (case["cprefix"], 10 + it[1], "ABC"[it[1]])
+                line = pre + v + "\n"
+                planted.append(("cpr", v, pos, pos + len(line)))
+                put(line)
+            elif t == "N":
+                v = "Contributor %s" % "XYZ"[it[1]]
+                line = pre + "SPDX-FileContributor: " + v + "\n"
+                planted.append(("con", v, pos, pos + len(line)))
+                put(line)
+            elif t == "F":
+                put(["x = x + 1\n", pre + "generated code, do not edit\n", "}\n"][it[1]])
+            elif t == "B":
+                put("\n")
+            elif t == "P":
+                put(["    call(0x00, 0x00, 0x00, 0x00, 0x00, 0x00, 0x00, 0x00);\n", pre + "-" * 60 + "\n", "\n" * 30][it[2]] * it[1])
+        if case["snipend"] and snip is not None:
+            put(pre + "SPDX-SnippetEnd\n")
+        return "".join(parts), planted
 
     def build(self, case):
         """-> (text, planted [(kind, value, start, end)])"""
         st, en = _markers()
+        if case.get("plan") == "repeat":
+            text, planted = self.build_repeat(case)
+            return self.avoid_cut(text, planted)
         pre = "# " if case["c"] else ""
         parts, planted, pos, k = [], [], 0, 0
 
@@ -296,16 +405,26 @@ class FileStream(Stream):
                     put(" ")
         text = "".join(parts)
         if case.get("straddle") and "SPDX-SnippetBegin" in text:
-            kk, j = case["straddle"]
+            kk, j = case["straddle"][:2]
+            unit = case["straddle"][2] if len(case["straddle"]) > 2 else 4096
             i = text.index("SPDX-SnippetBegin")
             ls = i - len(pre)                       # start of the marker's line
-            need = 4096 * kk - j - i
+            need = unit * kk - j - i
             while need < 0:
-                need += 4096
+                need += unit
             if need > 0:
-                fill = "." * (need - 1) + "\n"
+                if need < 200:
+                    fill = "." * (need - 1) + "\n"
+                else:
+                    q, r = divmod(need, 80)
+                    fill = ("." * 79 + "\n") * (q - 1) + "." * (79 + r) + "\n"
+                assert len(fill) == need
                 text = text[:ls] + fill + text[ls:]
                 planted = [(kd, v, a + need, b + need) if a >= ls else (kd, v, a, b) for kd, v, a, b in planted]
+        return self.avoid_cut(text, planted)
+
+    def avoid_cut(self, text, planted):
+        st, en = _markers()
         # the window must not cut a tag line or a marker in two (what a truncated tag means is C02's business)
         for _ in range(40):
             cut = 4096
@@ -354,7 +473,8 @@ class FileStream(Stream):
         return "L=%s|C=%s|N=%s" % tuple(";".join(sorted(got[k])) for k in ("lic", "cpr", "con"))
 
     def model_lines(self, case):
-        return ["extract\t" + enc(self.scanned(self.build(case)[0]))]
+        sc = self.scanned(self.build(case)[0])
+        return ["extract\t" + enc(sc)] if len(sc) <= self.MODEL_MAX else []
 
     def model_out(self, case, outs):
         from core import dec_list
@@ -376,11 +496,15 @@ class FileStream(Stream):
         sc = self.scanned(text)
         mask = outside_mask(sc, st, en)
         hidden = tuple((k, v) for k, v, a, b in planted if b > len(sc) or not mask[a])
-        return (impl_out, hidden, len(text) > 4096, "SPDX-SnippetBegin" in text) if hidden else None
+        return (impl_out, hidden, len(text) > 4096, "SPDX-SnippetBegin" in text, case.get("plan", "runs")) if hidden else None
 
     def show(self, case):
         text, planted = self.build(case)
-        return {"bytes": len(text), "snippet_marker": "SPDX-SnippetBegin" in text, "text_head": text[:300], "segments": case["segs"]}
+        if case.get("plan") == "repeat":
+            return {"bytes": len(text), "snippet_marker": "SPDX-SnippetBegin" in text, "text": text if len(text) < 3000 else text[:3000] + "...",
+                    "repeated_lines": len(text.split("\n")) - len(set(text.split("\n")))}
+        return {"bytes": len(text), "snippet_marker": "SPDX-SnippetBegin" in text, "snippet_marker_at": text.find("SPDX-SnippetBegin"),
+                "text_head": text[:300], "segments": case["segs"]}
 
 
 def table_roundtrip():
